@@ -94,7 +94,7 @@ func (g *goGen) structTD(t *rapid.T, depth int) *gm.TD {
 	n := rapid.IntRange(0, 5).Draw(t, "nfields")
 	td := &gm.TD{K: gm.KStruct}
 	used := map[string]bool{}
-	emb := rapid.IntRange(0, 11).Draw(t, "embed")
+	emb := rapid.IntRange(0, 12).Draw(t, "embed")
 	addEmb := func(name string, ptr bool) {
 		et := &gm.TD{K: gm.KNamed, Name: name}
 		if ptr {
@@ -116,6 +116,9 @@ func (g *goGen) structTD(t *rapid.T, depth int) *gm.TD {
 		addEmb("EmbDeeper", false) // EmbA's fields three levels down
 	case 5:
 		addEmb("EmbDeeper", true)
+	case 6:
+		addEmb("EmbL", false)
+		addEmb("EmbR", rapid.Bool().Draw(t, "embRptr")) // EmbA twice at depth 2
 	}
 	for i := 0; i < n; i++ {
 		f := gm.FD{Name: fmt.Sprintf("F%d", i)}
@@ -142,7 +145,7 @@ func (g *goGen) structTD(t *rapid.T, depth int) *gm.TD {
 				f.Tag, f.Key, takesName = fmt.Sprintf("F%d", o), "", true
 			}
 		}
-		if !takesName && used[f.KeyName()] && !(f.KeyName() == "x" && emb <= 5) {
+		if !takesName && used[f.KeyName()] && !(f.KeyName() == "x" && emb <= 6) {
 			f.Tag, f.Key = "", "" // fall back to the unique field name
 		}
 		if f.KeyName() == "x" && used["x"] {
